@@ -518,7 +518,8 @@ def run_export(dat, geo, kw):
         import sys, traceback
         res['full'] = False; res['json_error'] = '%s: %s' % (type(e).__name__, str(e)[:80]); j = None
         res['json_exc'] = type(e).__name__
-        res['json_where'] = traceback.extract_tb(sys.exc_info()[2])[-1].name
+        fr = traceback.extract_tb(sys.exc_info()[2])[-1]
+        res['json_where'], res['json_line'] = fr.name, (fr.line or '')
     def cells_line(types): return 'OK\t' + ';'.join(','.join('%d' % c for c in t['cells']) for t in types)
     def src_line(srcs): return 'OK\t' + ','.join('%s:%s' % (hx(s['name']), 'N' if s.get('cell') is None else '%d' % s['cell']) for s in srcs)
     if j is not None:
